@@ -4,8 +4,13 @@ N_10 <= N_50 <= N_90.
 
 Correspondence: the Lean model lean/Model/Assessment.lean (ops `c10.*` of lean/Driver/Assessment.lean) is the
 P_RAM pipeline end to end: parameter formulas -> binned look-up (the REAL look-up tables of the run are sent
-to the driver) -> HCM (Model/HCM) -> recorder columns -> P_RAM -> DamageCalculatorPRAM / N_max_bearable.
-Oracle: the property's relations on the real code, P_RAM and P_RAJ."""
+to the driver) -> HCM (Model/HCM) -> recorder columns -> P_RAM -> DamageCalculatorPRAM / N_max_bearable; the P_RAJ
+pipeline from the recorded hysteresis table on is harness/praj.py + Model/PRAJ.lean (case kind `praj`).
+Oracle: the property's relations on the real code, P_RAM and P_RAJ.
+
+Every run of the real code that happens ahead of the oracle (look-up tables for the model, construction of hot
+spots, P_RAJ tables) is wrapped: an exception of the implementation becomes a failing case (`exc_verdict`), not an
+infrastructure error."""
 import contextlib
 import io
 import json
@@ -16,8 +21,8 @@ import warnings
 import numpy as np
 import pandas as pd
 
-from .core import Prop, f2h, h2f, close
-from . import praj
+from .core import Prop, f2h, h2f, close, load_known, _involves_implementation, _harness_side
+from . import praj, hcm
 
 SOURCES = [
     "src/pylife/strength/fkm_nonlinear/assessment_nonlinear_standard.py",
@@ -37,14 +42,26 @@ PA_TABLE = [0.5, 2.3e-1, 1e-3, 7.2e-5, 1e-5, 1e-6]       # values that fkm_load_
 PA_FREE = [0.4, 0.1, 0.05, 3e-4, 2e-6]                     # "any value in (0, 1) is possible"
 NBINS = 100                                                # number_of_bins of the Binned law in the assessment
 
-# tolerances of the oracle (relative).  Look-up tables are filled by a Newton iteration (rtol 1e-5 / tol 1e-6 for
-# extended Neuber, visibly looser for Seeger-Beste) that is run vectorised over all points of a batch, so batch and
-# single tables differ in the last digits the solver resolves; lifetimes amplify this by 1/|d| (3 .. 6).
-TOL_RAM = 2e-4
-TOL_RAJ = 2e-2
+# tolerances of the oracle (relative).  Look-up tables are filled by a Newton iteration that is run vectorised over all
+# points of a batch, so the tables of a point in a batch and alone differ in the last bits (which iteration of the whole
+# vector stops the loop); lifetimes amplify this by 1/|d| (3 .. 6).  Measured on the unchanged tree (hundreds of batches of
+# 2-12 points): <= 2e-12 (P_RAM), <= 4e-11 (P_RAJ); the largest values seen by a run are recorded in the evidence
+# (distribution.max_rel_*).  Refined vs base sequences go through identical tables: the same bound is far on the safe side.
+# The Seeger-Beste PRIMARY branch (stress -> strain of the first loading) is solved to rtol 1e-5 only and its values do
+# differ between the vectorised and the single solve (up to 1.1e-6 of the largest strain seen in 1000 batch points): it enters the running strain extremes
+# (TOL_LF = twice the solver's rtol) and, through the crack opening logic only, the P_RAJ lifetime.
+TOL_RAM = 1e-8
+TOL_RAJ = 1e-6
 TOL_MONO = 1e-6
 TOL_VERDICT = 1e-3
-TOL_LF = 2e-3
+TOL_LF = 2e-5
+# guards of the finding classes (see KNOWN_FINDINGS.jsonl): magnitudes observed on the unchanged tree, with head room
+# mono-P_RAJ-{rough,pa,scale-classing}: increase of the lifetime with the documented default of 200 P_RAJ classes.  Observed in
+# 1200 pairs: rough 21 of 414 (1 .. 20 %; 38 % seen for R_z 6.3 -> 250 in a thorough run), P_A 12 of 367 (7 .. 44 %; grows with the
+# step of the parameter), load scale 1 of 419 (0.08 %)
+CLASSING_MAX_REL = {"rough": 0.6, "pa": 0.6, "scale": 0.02}
+CLASSING_FINE = 2000       # ... which has to vanish (to CLASSING_FINE_TOL) with this many classes
+CLASSING_FINE_TOL = 0.03
 
 
 def _mod():
@@ -84,15 +101,65 @@ def node_loads(L, cs, k, scale=1.0):
     return [float(l * cs[k]) / float(cs[0]) * scale for l in L]
 
 
-def make_sequence(L, cs, nodes, scale=1.0, as_batch=None):
-    """nodes: indices into cs.  One node -> plain Series (unless as_batch), else the (load_step, node_id) MultiIndex Series."""
+# ---- layouts of a multi-point load sequence.  The Series has the index levels (load_step, node_id); which labels the
+# nodes carry, whether the rows are ordered load step by load step or point by point, and which labels the load steps
+# carry (the history is the ROW order, see harness/hcm.py) does not change what is described.
+ID_KINDS = ["range", "offset", "gaps", "descending", "shuffled"]
+ID_KINDS_ASC = ["range", "offset", "gaps"]
+# load_step labels: every layout of harness/hcm.py except "descending".  The docstring of the assessment asks for consecutive
+# labels from 0; the code accepts any labels whose first-run shift (+1) does not collide with a label of the second run.
+# Labels descending by one do collide: FKMNonlinearRecorder._get_for_every_node infers the number of points from runs of equal
+# load_step labels and gets twice the number (ValueError "operands could not be broadcast together" in .collective, e.g. loads
+# [186, 263, -374, 235] x ratios 1 : 1.4 with labels 1000, 999, 998, 997) - outside the documented input, not generated.
+STEP_KINDS = [k for k in hcm.LABELS if k != "descending"]
+
+
+def gen_ids(rng, kind, n):
+    if kind == "range":
+        return list(range(n))
+    if kind == "offset":
+        a = rng.choice([1, 1001, 14610])
+        return [a + i for i in range(n)]
+    ids = sorted(rng.sample(range(2, 90), n))
+    if kind == "gaps":
+        return ids
+    if kind == "descending" or n < 3:
+        return ids[::-1]
+    while ids == sorted(ids) or ids == sorted(ids, reverse=True):      # shuffled: neither ascending nor descending
+        rng.shuffle(ids)
+    return ids
+
+
+def gen_lay(rng, n, id_kinds=ID_KINDS):
+    """a layout for a batch of n points"""
+    kind = rng.choice(id_kinds)
+    return {"ids": gen_ids(rng, kind, n), "idkind": kind, "rows": rng.choice(["step", "step", "point"]),
+            "steps": rng.choice(STEP_KINDS)}
+
+
+def ids_ascending(case):
+    ids = (case.get("lay") or {}).get("ids")
+    return ids is None or all(a < b for a, b in zip(ids, ids[1:]))
+
+
+def make_sequence(L, cs, nodes, scale=1.0, as_batch=None, lay=None):
+    """nodes: indices into cs.  One node -> plain Series (unless as_batch), else the (load_step, node_id) MultiIndex Series
+    in the layout `lay` (node labels `ids` per position of cs, row order, load_step labels)."""
     if as_batch is None:
         as_batch = len(nodes) > 1
     if not as_batch:
         return pd.Series(node_loads(L, cs, nodes[0], scale))
-    idx = pd.MultiIndex.from_product([range(len(L)), range(len(nodes))], names=["load_step", "node_id"])
+    lay = lay or {}
+    ids_all = lay.get("ids") or list(range(len(cs)))
+    ids = [ids_all[k] for k in nodes]
+    steps = hcm.load_step_labels(len(L), lay.get("steps") or "0..n-1")
     cols = [node_loads(L, cs, k, scale) for k in nodes]
-    return pd.Series([cols[j][i] for i in range(len(L)) for j in range(len(nodes))], index=idx)
+    if lay.get("rows") == "point":
+        order = [(i, j) for j in range(len(nodes)) for i in range(len(L))]
+    else:
+        order = [(i, j) for i in range(len(L)) for j in range(len(nodes))]
+    idx = pd.MultiIndex.from_tuples([(steps[i], ids[j]) for i, j in order], names=["load_step", "node_id"])
+    return pd.Series([cols[j][i] for i, j in order], index=idx)
 
 
 def G_for(Gs, nodes, as_batch):
@@ -102,11 +169,11 @@ def G_for(Gs, nodes, as_batch):
     return pd.Series([float(Gs[k]) for k in nodes], index=pd.Index([7 + 3 * i for i in range(len(nodes))], name="node"))
 
 
-def assess(par, L, cs, Gs, nodes, ram=True, raj=True, scale=1.0, as_batch=None):
+def assess(par, L, cs, Gs, nodes, ram=True, raj=True, scale=1.0, as_batch=None, lay=None):
     if as_batch is None:
         as_batch = len(nodes) > 1
     A = _mod()
-    seq = make_sequence(L, cs, nodes, scale, as_batch)
+    seq = make_sequence(L, cs, nodes, scale, as_batch, lay)
     p = make_params(par, G_for(Gs, nodes, as_batch))
     if float(par["Kp"]) == 1.0:
         raj = False
@@ -119,6 +186,46 @@ def assess(par, L, cs, Gs, nodes, ram=True, raj=True, scale=1.0, as_batch=None):
                 if "Failed to converge" in str(e):      # scipy.optimize.newton gave up: solver behaviour (C06), not C10
                     raise SolverFailure(str(e))
                 raise
+
+
+def exc_verdict(e):
+    """What an exception raised while the REAL code is evaluated means (the rule of core.Prop._oracle_safe, for the real-code
+    runs that are made ahead of the oracle: look-up tables for the model, hot-spot construction, P_RAJ tables):
+    (description, finding class), or the exception again when it is about the machinery itself."""
+    if isinstance(e, (SolverFailure, praj.NewtonFailure)):
+        raise e
+    if _involves_implementation(e):
+        return (f"the implementation raises {type(e).__name__}: {str(e)[:300]}", "implementation-raises")
+    if _harness_side(e):
+        raise e
+    return (f"the implementation's result cannot be interpreted: {type(e).__name__}: {str(e)[:300]}", "unexpected-result")
+
+
+def ctx_of(case):
+    par, cs = case["par"], case["cs"]
+    return (f"group={par['group']} R_m={par['Rm']} K_p={par['Kp']} P_A={par.get('PA')} R_z={par.get('Rz')} K_RP={par.get('krp')} A_sigma={par['Asigma']} "
+            f"loads={case['L']} ratios={[c / cs[0] for c in cs]} G={case['G']} layout={case.get('lay')}")
+
+
+def node_order_desc(case, msg):
+    return (f"a batch whose node_id labels are not ascending ({(case.get('lay') or {}).get('ids')}) cannot be assessed: the per-point maxima "
+            f"(fkm_load_sequence.maximum_absolute_load groups and SORTS by node_id) and with them the look-up tables are matched to the "
+            f"points by position: ValueError {msg}; {ctx_of(case)}")
+
+
+class NodeOrderDefect(Exception):
+    """the look-up refuses a load because the tables were matched to the wrong points (finding batch-node-order)"""
+
+
+def assess_batch(case, *args, **kw):
+    """assess() for the batch of a case; the ValueError of the binned look-up for a batch whose node labels are not
+    ascending is the recorded finding batch-node-order"""
+    try:
+        return assess(*args, lay=case.get("lay"), **kw)
+    except ValueError as e:
+        if "Binned class is initialized" in str(e) and len(case["cs"]) > 1 and not ids_ascending(case):
+            raise NodeOrderDefect(str(e)[:160].replace("\n", " "))
+        raise
 
 
 class SolverFailure(Exception):
@@ -143,6 +250,11 @@ def summary(res, n, raj=True):
             out[i][key] = bool(v) if "infinite" in key else float(v)
     for i, v in enumerate(vec(res["P_RAM_lifetime_n_times_load_sequence"], n)):
         out[i]["P_RAM_passes"] = float(v)
+    # hystereses recorded in the first / second pass (the early-failure lifetime counts those of BOTH passes)
+    run = res["P_RAM_collective"]["run_index"]
+    for i in range(n):
+        rk = run[run.index.get_level_values("assessment_point_index") == i]
+        out[i]["P_RAM_n1"], out[i]["P_RAM_n2"] = int((rk == 1).sum()), int((rk == 2).sum())
     # margins of the infinite-life verdicts
     dc = res["P_RAM_damage_calculator"]
     pmax = vec(dc.P_RAM_max, n)
@@ -161,6 +273,7 @@ def summary(res, n, raj=True):
         for i in range(n):
             ck = col[col.index.get_level_values("assessment_point_index") == i]
             out[i]["LF"] = [float(v) for v in ck["epsilon_min_LF"].values] + [float(v) for v in ck["epsilon_max_LF"].values]
+            out[i]["P_RAJ_vals"] = [float(v) for v in ck["P_RAJ"].values]      # damage parameter of every hysteresis
     for pre in ("P_RAM", "P_RAJ"):
         for q in ("N_10", "N_50", "N_90"):
             key = f"{pre}_lifetime_{q}"
@@ -178,6 +291,14 @@ def relclose(a, b, tol):
     return abs(a - b) <= tol * max(abs(a), abs(b))
 
 
+def reldiff(a, b):
+    if a == b:
+        return 0.0
+    if math.isinf(a) or math.isinf(b) or a != a or b != b:
+        return math.inf
+    return abs(a - b) / max(abs(a), abs(b))
+
+
 def le(a, b, tol):
     """a <= b up to tol (inf allowed)"""
     if a != a or b != b:
@@ -193,8 +314,12 @@ def le(a, b, tol):
 def on_inexact_edge(L):
     """some |value| or |difference| of the first point's loads lies exactly on a class edge i/100*max.  There the class
     found in double arithmetic depends on rounding (of the edge `i/100*max`, and of the other points' loads `l*c_k/c_0`
-    and their differences), so batch and single runs may legitimately pick neighbouring classes.  Exact in doubles for
-    every point, and kept: |value| = max, difference = 2*max, difference = max between 0 and +-max."""
+    and their differences).  Up to 3047e0d the code took the class of ALL points from the first point's float load while a
+    point assessed alone uses its own: on such loads a point got neighbouring classes in a batch and alone (3-5 % of the
+    lifetime; C07 finding binned-multi-first-point-class, fixed).  The oracle cases therefore INCLUDE such loads (a third of
+    the batches consists of round loads that lie on class edges throughout).  The MODEL selects classes in exact
+    arithmetic, so only the correspondence cases avoid them.  Exact in doubles for every point, and not counted:
+    |value| = max, difference = 2*max, difference = max between 0 and +-max."""
     M = max(abs(v) for v in L)
     if M == 0:
         return True
@@ -212,29 +337,57 @@ def on_inexact_edge(L):
     return False
 
 
-def gen_loads(rng, Rm, n, extreme=False):
+def gen_loads(rng, Rm, n, extreme=False, edges="any"):
+    """edges: "avoid" (correspondence cases: the model selects classes in exact arithmetic), "any", or "force" (round
+    loads: every value a multiple of 1/20 .. 1/100 of the largest one, i.e. exactly on class edges)"""
     for _ in range(200):
         frac = rng.uniform(0.25, 1.0) if not extreme else rng.uniform(2.0, 6.0)
         M = max(30, int(frac * Rm) + rng.randint(0, 6))
-        style = rng.random()
-        if style < 0.5:
-            L = [rng.randint(-M, M) for _ in range(n)]
-        elif style < 0.8:   # few levels: repeated values, plateaus, ties
-            lv = [rng.randint(-M, M) for _ in range(3)] + [0]
-            L = [rng.choice(lv) for _ in range(n)]
-        else:               # mostly one-sided
-            lo = rng.randint(-M // 4, M // 3)
-            L = [rng.randint(lo, M) for _ in range(n)]
+        if edges == "force":
+            q = rng.choice([10, 20, 20, 50, 100])             # loads are multiples of M/q
+            M = max(q, M // q * q)
+            u = M // q
+            L = [u * rng.randint(-q, q) for _ in range(n)]
+            if rng.random() < 0.3:
+                lv = [u * rng.randint(-q, q) for _ in range(3)] + [0]
+                L = [rng.choice(lv) for _ in range(n)]
+        else:
+            style = rng.random()
+            if style < 0.5:
+                L = [rng.randint(-M, M) for _ in range(n)]
+            elif style < 0.8:   # few levels: repeated values, plateaus, ties
+                lv = [rng.randint(-M, M) for _ in range(3)] + [0]
+                L = [rng.choice(lv) for _ in range(n)]
+            else:               # mostly one-sided
+                lo = rng.randint(-M // 4, M // 3)
+                L = [rng.randint(lo, M) for _ in range(n)]
         i = rng.randrange(n)
         L[i] = rng.choice([M, -M])
-        if len(set(L)) >= 2 and not on_inexact_edge(L):
-            return L
+        if len(set(L)) < 2:
+            continue
+        e = on_inexact_edge(L)
+        if (edges == "avoid" and e) or (edges == "force" and not e):
+            continue
+        return L
     return [M, -M // 2 + 1, M // 3 + 1, -M + 1][:max(n, 2)]
 
 
+def head_nonreversals(L):
+    """values v for which `v :: L` has one sample more that is no reversal: v lies (weakly) between the first sample and
+    BOTH its predecessors - the initial load 0 (the first pass starts at load 0) and the last sample (junction of the
+    repetition).  A value between the last and the first sample only is a reversal of the first pass."""
+    h, z = L[0], L[-1]
+    if h * (h - z) <= 0:                       # 0 and the last sample lie on different sides of the first one (or one of them equals it)
+        return [h]
+    near = 0 if abs(h) <= abs(h - z) else z
+    lo, hi = sorted((near, h))
+    return list(range(lo, hi + 1))
+
+
 def refine(rng, L):
-    """insert samples that are no reversals: interior intermediate values, repeated values, and (at the end) a
-    value between the last and the first sample (not equal to the first unless equal to the last)"""
+    """insert samples that are no reversals: interior intermediate values, repeated values, (at the end) a value between the
+    last and the first sample (not equal to the first unless equal to the last), and (in front) values between the first
+    sample and both the initial load 0 and the last sample"""
     out = []
     for i, v in enumerate(L):
         out.append(v)
@@ -252,6 +405,11 @@ def refine(rng, L):
         if v == L[0] and v != L[-1]:
             v = L[-1]
         out.append(v)
+    if rng.random() < 0.5:
+        # in front; with the (possibly appended) last sample of `out` as predecessor at the junction
+        cand = head_nonreversals([L[0], out[-1]])
+        vals = sorted((rng.choice(cand) for _ in range(rng.randint(1, 2))), key=lambda v: abs(v - L[0]), reverse=True)
+        out = vals + out
     return out
 
 
@@ -299,6 +457,14 @@ def hot_ratio(job):
     return None
 
 
+def hot_ratio_safe(job):
+    """hot_ratio for the generator: an exception of the implementation is carried into a case instead of ending the run"""
+    try:
+        return hot_ratio(job)
+    except Exception as e:
+        return ("exc",) + exc_verdict(e)
+
+
 def _par_worker(args):
     lo, hi = args
     return lo, [_PAR["fn"](c) for c in _PAR["cases"][lo:hi]]
@@ -326,17 +492,22 @@ def par_map(fn, cases, procs):
 class C10(Prop):
     ID = "C10"
     SOURCES = SOURCES
-    LEAN_MODULES = ["Proofs.C10", "Proofs.PRAJ"]
+    LEAN_MODULES = ["Proofs.C10", "Proofs.PRAJ", "Proofs.BridgeConstsAll"]
     PARALLEL = 16
     THEOREMS = [
         "PylifeVerif.C10.assessment_batch_independent_PRAM",
         "PylifeVerif.C10.assessment_sample_insensitive",
+        "PylifeVerif.C10.assessment_sample_insensitive_prepend",
+        "PylifeVerif.C10.prepend_between_last_and_first_changes_records",
+        "PylifeVerif.C10.assessment_batch_independent_PRAM_tables",
+        "PylifeVerif.C04.hcm_prepend_nonreversal_code",
         "PylifeVerif.C10.assessment_batch_independent_PRAM_of_hcm_batch",
         "PylifeVerif.C10.assessment_sample_insensitive_of_hcm_insert",
         "PylifeVerif.C10.lifetime_antitone_in_curve_partial",
         "PylifeVerif.C10.lifetime_antitone_in_load_scale_partial",
         "PylifeVerif.C10.N10_le_N50_le_N90_partial",
         "PylifeVerif.C10.lifetime_antitone_in_roughness_partial",
+        "PylifeVerif.C10.lifetime_antitone_in_Rz_partial",
         "PylifeVerif.C10.lifetime_antitone_in_PA_partial",
         "PylifeVerif.Assess.classQ_first_eq_own",
         "PylifeVerif.Assess.nCycles_antitone",
@@ -347,44 +518,62 @@ class C10(Prop):
         "PylifeVerif.PRAJ.class_exists_unique",
         "PylifeVerif.PRAJ.classwise_damage_eq_hysteresiswise",
         "PylifeVerif.PRAJ.xbar_loop_closed_form",
-        "PylifeVerif.PRAJ.xbarOld_depends_on_start",
         "PylifeVerif.PRAJ.praj_batch_independent_of_hcm_batch",
         "PylifeVerif.PRAJ.praj_batch_independent",
+        "PylifeVerif.PRAJ.praj_batch_independent_tables",
+        "PylifeVerif.PRAJ.praj_sample_insensitive",
         "PylifeVerif.PRAJ.N10_le_N50_le_N90_PRAJ_partial",
+        # the whole material-constants table of the translated source = the model's table (used by the assessment for every material group)
+        "PylifeVerif.Bridge.constants_eq",
+        "PylifeVerif.Bridge.constants_keys_complete",
     ]
-    # assessment_batch_independent_PRAM / assessment_sample_insensitive are unconditional (the HCM facts are
-    # C05.hcm_batch_eq_single_code, C04.hcm_insert_nonreversal_interior_code, C04.hcm_append_nonreversal_code, all about
-    # twoPass = the code); the `_of_hcm_...` forms (same conclusion from the HCM statements as hypotheses) are kept.
-    # Both are statements about the P_RAM pipeline; the P_RAJ part of C10 is decided by the oracle only (ASSUMPTIONS).
+    # assessment_batch_independent_PRAM / assessment_sample_insensitive(_prepend) are unconditional (the HCM facts are
+    # C05.hcm_batch_eq_single_code, C04.hcm_insert_nonreversal_interior_code, C04.hcm_append_nonreversal_code,
+    # C04.hcm_prepend_nonreversal_code, all about twoPass = the code); the `_of_hcm_...` forms (same conclusion from the HCM
+    # statements as hypotheses) are kept.  `..._tables`: the same with the table of a point BUILT from the maximum of its column
+    # of the load sequence (batch) / of its own sequence (alone) instead of one table given for both sides.
+    # PRAJ.xbarOld_depends_on_start (a numeric example about a variant that is not the code) is no longer counted.
     PARTIAL = {
         "PylifeVerif.PRAJ.N10_le_N50_le_N90_PRAJ_partial": "hypothesis 0 <= lifetime (needs f(j+1) >= f(j) for the classes j >= q, true only while the bracket of eq. 2.9-139 is positive)",
         "PylifeVerif.C10.lifetime_antitone_in_curve_partial": "hypothesis Regime: the lower curve does not fail within the two recorded passes, or the first pass recorded at most one hysteresis more than the second (early-failure lifetime counts hystereses of both passes, the regular one multiples of pass 2)",
         "PylifeVerif.C10.lifetime_antitone_in_load_scale_partial": "per-hysteresis step (P_RAM of every hysteresis non-decreasing in the load scale for the binned Masing law) is a hypothesis; Regime as above; the real code is covered by the oracle",
         "PylifeVerif.C10.N10_le_N50_le_N90_partial": "hypothesis: first-pass damage on the 50 % curve <= 1 (beyond it the code's (1-D1)/D2 is negative and not monotone)",
         "PylifeVerif.C10.lifetime_antitone_in_roughness_partial": "Regime as above; admissibility of both component curves assumed (P_D < P_Z, positive)",
-        "PylifeVerif.C10.lifetime_antitone_in_PA_partial": "both assessments with P_A != 0.5 (statistical assessment on); the step from P_A = 0.5 is covered by the oracle; P_A > 0.5 vs 0.5 is false for the code (finding mono-P_RAM-pa-above-half); Regime as above",
+        "PylifeVerif.C10.lifetime_antitone_in_Rz_partial": "as lifetime_antitone_in_roughness_partial, with K_R,P = kRP(R_z) (Assess.kRP_antitone_group): R_m,N,min <= 2 R_m and a non-negative base of the power (1 - a log10 R_z' log10(2 R_m / R_m,N,min)) for the rougher surface (beyond it the code computes NaN)",
+        "PylifeVerif.C10.lifetime_antitone_in_PA_partial": "both assessments with P_A != 0.5 (statistical assessment on); the step from P_A = 0.5 is covered by the oracle; P_A > 0.5 vs 0.5 is false for the code (finding mono-pa-above-half); Regime as above",
     }
     RULE = ("case = one relation of the property evaluated with real assessments (perform_fkm_nonlinear_assessment, P_RAM and P_RAJ, per-point load maxima requested): "
-            "corr = model vs code for a batch of 1-4 points and for one of its points alone (parameters, every hysteresis' P_RAM, verdict, early-failure index, lifetimes, N_10/50/90); "
-            "batch = every point of a batch vs alone, incl. batches with a hot spot (a point constructed from its single-point result to reach the damage sum one within the two recorded passes) in first / middle / last position next to finite- and infinite-life points; refine = non-reversal / repeated / appended samples; mono = load scale, roughness (R_z or K_R,P), P_A; n105090. "
-            "3 material groups x 3-4 tensile strengths, sequences of 3-10 (14) integer loads up to 0.25-1.0 R_m (some 2-6 R_m), ratios 0.5-1.5, uniform / per-point G, P_A from the guideline table and free values, "
-            "blanket / normal / lognormal load safety; loads exactly on a class edge with an inexact float edge are not generated; non-trivial = at least one hysteresis and a finite P_RAM value; distinct by (loads, ratios, material)")
+            "corr = model vs code for a batch of 1-4 points and for one of its points alone (parameters, every hysteresis' P_RAM, verdict, early-failure index, lifetimes, N_10/50/90), and that point in the batch vs alone; "
+            "batch = every point of a batch vs alone (plain Series or one-point two-level Series), incl. batches with a hot spot (a point constructed from its single-point result to reach the damage sum one within the two recorded passes) in first / middle / last position next to finite- and infinite-life points; "
+            "batches come in every layout of the two-level index: node labels 0..n-1 / offset / ascending with gaps / descending / shuffled, rows ordered load step by load step or point by point, load_step labels 0..n-1 / 1..n / 100.. / steps of 10 / shuffled (the history is the row order); "
+            "refine = non-reversal / repeated / appended / prepended samples (a prepended sample lies between the first sample and both the initial load 0 and the last sample); mono = load scale, roughness (R_z or K_R,P), P_A (blanket / normal / lognormal load safety, c != 1); n105090. "
+            "3 material groups x 3-4 tensile strengths, sequences of 3-10 (14) integer loads up to 0.25-1.0 R_m (some 2-6 R_m) incl. round loads exactly on class edges (correspondence cases avoid inexact edges: the model selects classes in exact arithmetic), ratios 0.5-1.5, uniform / per-point G, P_A from the guideline table and free values; "
+            "non-trivial = at least one hysteresis and a finite P_RAM value; distinct by (loads, ratios, material)")
     ASSUMPTIONS = [
-        "the model covers the P_RAM pipeline; the P_RAJ pipeline (crack opening loop, P_RAJ classing, x-bar summation) is NOT modelled: its part of C10 is decided by the direct oracle on the real code only",
-        "the look-up tables' VALUES (the Newton roots of the extended Neuber law at the class edges) are taken from the real run and sent to the model; their construction is C06/C07; class selection in the model compares exact rationals, the code compares doubles - generated loads avoid class edges whose float value is inexact",
+        "the model Model/Assessment.lean covers the P_RAM pipeline end to end; the P_RAJ pipeline is modelled from the recorded hysteresis table on (Model/PRAJ.lean, case kind praj); what lies before the table on the P_RAJ side (Seeger-Beste look-up, HCM with that law) is C05/C06/C07 and, for C10, the direct oracle on the real code",
+        "the look-up tables' VALUES (the Newton roots of the extended Neuber law at the class edges) are taken from the real run BY NODE LABEL and sent to the model; their construction is C06/C07; the model associates table k with point k (the behaviour of the repair tools/fixes/C10-node-order.diff; on a tree without it a batch whose node labels are not ascending is the open finding batch-node-order and its batch line is not compared while that finding is open)",
+        "class selection in the model compares exact rationals, the code compares doubles: correspondence cases avoid loads on class edges whose float value is inexact; the oracle cases (batch vs alone, refine, mono) do not - a third of the batches consists of round loads on class edges (audit C10-5: the batch dependence there is gone since 3047e0d, every point is looked up with its own load in its own table column)",
         "table values are scaled exactly by 2^100 to integers for Model/HCM; sums of table values are exact in the model and rounded in the code (agreement to 1e-9 relative is required)",
         "in the model of a batch the first point's stresses/strains that only steer min/max selections are evaluated with the assessed point's table (only their order matters; table values are positive); beyond the last class edge the model returns the last class value where the code raises (never reached for the point's own loads)",
         "beta = compute_beta(P_A) (root search) is taken from the real run (C09); loads of correspondence cases are integers with c = 1, P_L = 50 so that the scaled loads are exact",
-        "oracle tolerances: batch vs single / refined vs base lifetimes 2e-4 (P_RAM) and 2e-2 (P_RAJ) relative, because the look-up tables are filled by a vectorised Newton iteration whose result depends on the other points in the last solver digits; monotonicity 1e-6; verdicts compared only when P_max is more than 1e-3 away from the endurance value; running strain extremes batch vs single to 2e-3 of the largest strain of the history; scipy 'Failed to converge' in the Seeger-Beste tables is counted, not judged",
+        "scope of 'non-reversal sample' at the head of the sequence: the first pass starts at load 0, so a prepended sample is a non-reversal when it lies between the first sample and BOTH the initial load 0 and the last sample; a value between the last and the first sample only IS a reversal of the first pass and changes the first-pass hystereses (kernel-checked example C10.prepend_between_last_and_first_changes_records)",
+        "a load_step label is a label: the history is the row order of the Series (the docstring asks for consecutive labels from 0; increasing labels with other starts / steps and one shuffled labelling are accepted by the code and generated; labels DESCENDING by one are not: the first run shifts its labels by +1, they then collide with labels of the second run and FKMNonlinearRecorder._get_for_every_node, which infers the number of points from runs of equal labels, raises ValueError - outside the documented input, reported, not generated)",
+        "oracle tolerances: batch vs single / refined vs base lifetimes 1e-8 (P_RAM) and 1e-6 (P_RAJ) relative (measured noise of the vectorised Newton tables: lifetimes <= 6e-12 (P_RAM) and <= 4e-11 (P_RAJ), recorded per run in distribution.max_rel_*); monotonicity 1e-6; verdicts compared only when P_max is more than 1e-3 away from the endurance value; running strain extremes batch vs single to 2e-5 of the largest strain of the history (the Seeger-Beste primary branch is solved to rtol 1e-5; up to 1.1e-6 seen); scipy 'Failed to converge' in the Seeger-Beste tables is counted, not judged",
+        "open finding classes are guarded in the oracle: batch-node-order only for a batch whose node labels are not ascending; mono-P_RAM-early-failure-count only across the early-failure boundary with n1 >= n2 + 2 first/second-pass hystereses and an increase <= n1 - n2 cycles (exactly the complement of the theorems' hypothesis Regime); mono-pa-above-half only for P_A > 0.5 compared with exactly 0.5; mono-P_RAJ-rough / -pa only with fewer than 1000 P_RAJ classes, an increase <= 60 % that vanishes (<= 3 %) when the same pair is re-run with 2000 classes; mono-P_RAJ-scale only when the P_RAJ value of one of the (same) hystereses is smaller in the scaled run (crack closure); mono-P_RAJ-scale-classing like -rough with an increase <= 2 %; anything else of the same relation is reported under another class",
     ]
 
     def __init__(self):
         self.stats = {"kinds": {}, "groups": {}, "assessments": 0, "nodes": {}, "seq_len": {}, "memory3_rows": 0,
                       "early_failure": 0, "infinite_ram": 0, "infinite_raj": 0, "finite_ram": 0, "finite_raj": 0,
                       "hystereses": 0, "per_point_G": 0, "solver_failures": 0,
-                      "hot_not_found": 0, "hot_batches": 0, "early_failure_points_in_batches": 0}
+                      "hot_not_found": 0, "hot_batches": 0, "early_failure_points_in_batches": 0,
+                      "layout_ids": {}, "layout_rows": {}, "layout_steps": {}, "edge_load_cases": 0, "alone_as_one_point_batch": 0,
+                      "corr_batch_line_suspended_open_finding": 0, "prepended_samples": 0,
+                      "max_rel_batch_P_RAM": 0.0, "max_rel_batch_P_RAJ": 0.0, "max_rel_refine_P_RAM": 0.0, "max_rel_refine_P_RAJ": 0.0, "max_rel_batch_LF": 0.0,
+                      "mono_failures_examined": {}}
         self.exhaustive = False
         self._cache = {}
+        self._open = {e["class"] for e in load_known(self.ID) if e.get("status") == "open"}
 
     def _count(self, d, k):
         self.stats[d][str(k)] = self.stats[d].get(str(k), 0) + 1
@@ -392,17 +581,20 @@ class C10(Prop):
     # ------------------------------------------------------------ generation
     def generate(self, rng, tier):
         quick = tier == "quick"
-        n_corr, n_batch, n_ref, n_mono, n_n = (14, 20, 12, 30, 8) if quick else (160, 300, 150, 450, 100)
+        n_corr, n_batch, n_ref, n_mono, n_n = (14, 22, 12, 30, 8) if quick else (160, 320, 150, 450, 100)
         maxlen = 10 if quick else 14
         cases = []
         for _ in range(n_corr):
             par = gen_par(rng)
             nn = rng.randint(1, 4)
-            L = gen_loads(rng, par["Rm"], rng.randint(4, maxlen))
+            L = gen_loads(rng, par["Rm"], rng.randint(4, maxlen), edges="avoid")
             if rng.random() < 0.3:
                 par["PA"] = 0.5
-            cases.append({"kind": "corr", "par": par, "L": L, "cs": gen_cs(rng, nn), "G": gen_G(rng, nn), "k": rng.randrange(nn)})
-        for _ in range(n_batch):
+            c = {"kind": "corr", "par": par, "L": L, "cs": gen_cs(rng, nn), "G": gen_G(rng, nn), "k": rng.randrange(nn)}
+            if nn > 1:
+                c["lay"] = gen_lay(rng, nn)
+            cases.append(c)
+        for i in range(n_batch):
             par = gen_par(rng, table_pa=True)
             nn = rng.randint(2, 4)
             r = rng.random()
@@ -412,21 +604,41 @@ class C10(Prop):
                 par.update(sL=rng.choice([5.0, 10.0]), PL=rng.choice([50, 2.5]))
             elif r < 0.45:
                 par.update(LSDs=rng.choice([0.01, 0.03]), PL=rng.choice([50, 2.5]))
-            cases.append({"kind": "batch", "par": par, "L": gen_loads(rng, par["Rm"], rng.randint(4, maxlen)),
-                          "cs": gen_cs(rng, nn), "G": gen_G(rng, nn)})
+            lay = gen_lay(rng, nn)
+            L = gen_loads(rng, par["Rm"], rng.randint(4, maxlen), edges="force" if i % 3 == 0 else "any")
+            if lay["rows"] == "point" or rng.random() < 0.3:
+                L = refine(rng, L)[:maxlen + 6]           # plateaus and intermediate samples: turning points != samples
+                if len(set(L)) < 2:
+                    L = L + [L[0] + 25]
+            cases.append({"kind": "batch", "par": par, "L": L, "cs": gen_cs(rng, nn), "G": gen_G(rng, nn), "lay": lay,
+                          "alone_mi": rng.random() < 0.3})
         for _ in range(n_ref):
             par = gen_par(rng)
-            nn = rng.choice([1, 1, 2])
-            cases.append({"kind": "refine", "par": par, "L": gen_loads(rng, par["Rm"], rng.randint(3, maxlen - 2)),
-                          "cs": gen_cs(rng, nn), "G": gen_G(rng, nn), "seed": rng.randrange(1 << 30)})
+            nn = rng.choice([1, 1, 2, 3])
+            c = {"kind": "refine", "par": par, "L": gen_loads(rng, par["Rm"], rng.randint(3, maxlen - 2)),
+                 "cs": gen_cs(rng, nn), "G": gen_G(rng, nn), "seed": rng.randrange(1 << 30)}
+            if nn > 1:
+                # the refined sequence is given in another layout than the base sequence
+                c["lay"], c["lay2"] = gen_lay(rng, nn, ID_KINDS_ASC), gen_lay(rng, nn, ID_KINDS_ASC)
+            cases.append(c)
         for _ in range(n_mono):
             what = rng.choice(["scale", "rough", "pa"])
             par = gen_par(rng, table_pa=(what == "pa"))
             nn = rng.choice([1, 1, 2])
             c = {"kind": "mono", "what": what, "par": par, "L": gen_loads(rng, par["Rm"], rng.randint(4, maxlen), extreme=(what == "scale" and rng.random() < 0.15)),
                  "cs": gen_cs(rng, nn), "G": gen_G(rng, nn)}
+            if nn > 1:
+                c["lay"] = gen_lay(rng, nn, ID_KINDS_ASC)
+            r = rng.random()
+            if what != "pa":                      # load safety concepts and transfer factor c (P_A is from the table then)
+                if r < 0.15:
+                    par.update(PL=2.5, c=rng.choice([1.4, 0.7]))
+                elif r < 0.3:
+                    par.update(LSDs=rng.choice([0.01, 0.03]), PL=rng.choice([50, 2.5]), PA=rng.choice(PA_TABLE))
+                elif r < 0.4:
+                    par.update(sL=rng.choice([5.0, 10.0]), PL=rng.choice([50, 2.5]), PA=rng.choice(PA_TABLE))
             if what == "scale":
-                c["s"] = rng.choice([1.0, 1.02, 1.1, 1.3, 2.0])
+                c["s"] = rng.choice([1.005, 1.02, 1.1, 1.3, 2.0])
             elif what == "rough":
                 if rng.random() < 0.5:
                     c["par"]["krp"], c["par"]["Rz"] = None, None
@@ -441,6 +653,9 @@ class C10(Prop):
                     a, b = sorted(rng.sample(PA_TABLE, 2), reverse=True)
                 elif rng.random() < 0.12:
                     a, b = rng.choice([0.9, 0.6]), rng.choice([0.5, 0.4, 1e-3])
+                elif rng.random() < 0.2:
+                    par.update(LSDs=rng.choice([0.01, 0.03]), PL=rng.choice([50, 2.5]))
+                    a, b = sorted(rng.sample(PA_TABLE, 2), reverse=True)
                 else:
                     a, b = sorted(rng.sample(PA_TABLE + PA_FREE, 2), reverse=True)
                 c["pa"] = [a, b]
@@ -449,8 +664,11 @@ class C10(Prop):
             par = gen_par(rng)
             par["PA"] = 0.5
             nn = rng.choice([1, 1, 2, 3])
-            cases.append({"kind": "n105090", "par": par, "L": gen_loads(rng, par["Rm"], rng.randint(4, maxlen), extreme=rng.random() < 0.2),
-                          "cs": gen_cs(rng, nn), "G": gen_G(rng, nn)})
+            c = {"kind": "n105090", "par": par, "L": gen_loads(rng, par["Rm"], rng.randint(4, maxlen), extreme=rng.random() < 0.2),
+                 "cs": gen_cs(rng, nn), "G": gen_G(rng, nn)}
+            if nn > 1:
+                c["lay"] = gen_lay(rng, nn, ID_KINDS_ASC)
+            cases.append(c)
         # batches with a hot spot: one point reaches the damage sum one within the two recorded passes (the early-failure
         # branch of DamageCalculatorPRAM), in first / middle / last position next to finite-life and infinite-life points
         n_hot = 9 if quick else 60
@@ -460,11 +678,15 @@ class C10(Prop):
             par["Kp"] = rng.choice([2.5, 3.5])
             if rng.random() < 0.5:
                 par.update(Rm=RM[par["group"]][0], Rz=200.0, krp=None, PA=1e-5)     # weak, rough, small P_A
-            protos.append((par, gen_loads(rng, par["Rm"], rng.randint(4, maxlen)), 20, rng.choice([0.0, 2 / 15, 0.5])))
-        hots = par_map(hot_ratio, protos, self.PARALLEL)
+            protos.append((par, gen_loads(rng, par["Rm"], rng.randint(4, maxlen), edges="avoid"), 20, rng.choice([0.0, 2 / 15, 0.5])))
+        hots = par_map(hot_ratio_safe, protos, self.PARALLEL)
         for i, ((par, L, c0, G), ch) in enumerate(zip(protos, hots)):
             if ch is None:
                 self.stats["hot_not_found"] += 1
+                continue
+            if isinstance(ch, tuple):
+                # the implementation raised while the hot spot was constructed: the oracle of this case repeats the run
+                cases.append({"kind": "hotprobe", "par": par, "L": L, "c0": c0, "G0": G})
                 continue
             others = [c0, rng.randint(4, 7), rng.randint(c0 // 2, c0 + c0 // 2)]          # ordinary, (nearly) infinite life, ordinary
             others = others[:rng.randint(1, 3)]
@@ -478,10 +700,11 @@ class C10(Prop):
                 ch = m * c0
             else:
                 cs = others + [ch] if pos == 2 else others[:1] + [ch] + others[1:]
+            lay = gen_lay(rng, len(cs))
             if i % 3 == 0 and not quick or (quick and i % 4 == 0):
-                cases.append({"kind": "corr", "par": par, "L": L, "cs": cs, "G": [G] * len(cs), "k": rng.randrange(len(cs)), "hot": cs.index(ch)})
+                cases.append({"kind": "corr", "par": par, "L": L, "cs": cs, "G": [G] * len(cs), "k": rng.randrange(len(cs)), "hot": cs.index(ch), "lay": lay})
             else:
-                cases.append({"kind": "batch", "par": par, "L": L, "cs": cs, "G": [G] * len(cs), "hot": cs.index(ch), "ram_only": True})
+                cases.append({"kind": "batch", "par": par, "L": L, "cs": cs, "G": [G] * len(cs), "hot": cs.index(ch), "ram_only": True, "lay": lay})
         cases += praj.generate(rng, tier)
         rng.shuffle(cases)
         self._precompute(cases)
@@ -490,14 +713,15 @@ class C10(Prop):
         return cases
 
     # ------------------------------------------------------------ correspondence
-    def _tables(self, res, n_nodes, as_batch):
+    def _tables(self, res, labels):
+        """per point (node label or None for a plain single run): the four look-up columns of the run, BY LABEL"""
         b = res["extended_neuber_binned"]
         p, s = b._lut_primary_branch, b._lut_secondary_branch
         out = []
-        for k in range(n_nodes):
-            if as_batch:
-                pk = p[p.index.get_level_values("node_id") == k]
-                sk = s[s.index.get_level_values("node_id") == k]
+        for lab in labels:
+            if lab is not None:
+                pk = p[p.index.get_level_values("node_id") == lab]
+                sk = s[s.index.get_level_values("node_id") == lab]
             else:
                 pk, sk = p, s
             out.append(list(pk.stress.values) + list(pk.strain.values) + list(sk.delta_stress.values) + list(sk.delta_strain.values))
@@ -512,30 +736,48 @@ class C10(Prop):
             toks += [f2h(v) for v in t]
         return " ".join(toks)
 
-    def _corr_lines(self, case):
-        """(model lines, implementation lines, stats) of a correspondence case: the real code is run once for the
-        batch and once for point k alone (P_RAM only)"""
+    def _corr_eval(self, case):
+        """{"ml", "il", "st", "orc"} of a correspondence case: the real code is run once for the batch and once for point k
+        alone (P_RAM only); `orc` is the oracle's verdict on point k in the batch vs alone (or on an exception)"""
         par, L, cs, Gs, k = case["par"], case["L"], case["cs"], case["G"], case["k"]
         nn = len(cs)
+        empty = {"ml": [], "il": [], "st": {"hyst": 0, "m3": 0, "early": 0}, "orc": None}
+        suspended = nn > 1 and not ids_ascending(case) and "batch-node-order" in self._open
         try:
-            rb = assess(par, L, cs, Gs, list(range(nn)), raj=False, as_batch=nn > 1)
+            try:
+                rb = assess_batch(case, par, L, cs, Gs, list(range(nn)), raj=False, as_batch=nn > 1)
+            except NodeOrderDefect as e:
+                return dict(empty, orc=(self._node_order_desc(case, str(e)), "batch-node-order"), susp=suspended)
             rs = assess(par, L, cs, Gs, [k], raj=False, as_batch=False)
+            ids = (case.get("lay") or {}).get("ids") or list(range(nn))
+            apb, aps = rb["assessment_parameters"], rs["assessment_parameters"]
+            is05 = abs(par["PA"] - 0.5) < 1e-9
+            betas = [beta_of(0.1), beta_of(0.5), beta_of(0.9)] if is05 else []
+            rz = ("rz", par["Rz"]) if par.get("krp") is None else ("krp", par["krp"])
+            ml = [" ".join(["c10.par", par["group"], f2h(par["Rm"]), rz[0], f2h(rz[1]), f2h(float(aps.beta)),
+                            "1" if is05 else "0", f2h(par["Aref"]), f2h(par["Asigma"]), f2h(Gs[k])]),
+                  self._run_line("batch" if nn > 1 else "single", par, apb, L, cs, Gs,
+                                 self._tables(rb, [ids[j] for j in range(nn)] if nn > 1 else [None]), betas),
+                  self._run_line("single", par, aps, L, [cs[k]], [Gs[k]], self._tables(rs, [None]), betas)]
+            line0 = " ".join(f2h(float(v)) for v in [aps.n_st, aps.n_bm, aps.n_P, aps.K_RP, aps.gamma_M_RAM, aps.f_RAM, aps.P_RAM_Z, aps.P_RAM_D])
+            il = [line0, self._impl_run(rb, nn, is05), self._impl_run(rs, 1, is05)]
+            col = rb["P_RAM_collective"]
+            st = {"hyst": len(col) // nn, "m3": int((~col["is_closed_hysteresis"].astype(bool)).sum()) // nn,
+                  "early": int(np.sum(np.asarray(rb["P_RAM_damage_calculator"]._n_cycles_until_damage).reshape(-1) < rb["P_RAM_damage_calculator"]._n_hystereses))}
+            orc = None
+            if nn > 1:
+                x = self._cmp_same(summary(rb, nn, raj=False)[k], summary(rs, 1, raj=False)[0], f"point {k} in the batch vs alone", self._ctx(case), "batch")
+                if x:
+                    orc = (x[0], self._batch_class(case, x[1], x[2]))
+            if suspended:
+                # open finding batch-node-order: the tables of this batch are matched to the wrong points; the batch line is
+                # compared again as soon as the finding is closed in KNOWN_FINDINGS.jsonl
+                ml, il = [ml[0], ml[2]], [il[0], il[2]]
+            return {"ml": ml, "il": il, "st": st, "orc": orc, "susp": suspended}
         except SolverFailure:
-            return [], [], {"hyst": 0, "m3": 0, "early": 0}
-        apb, aps = rb["assessment_parameters"], rs["assessment_parameters"]
-        is05 = abs(par["PA"] - 0.5) < 1e-9
-        betas = [beta_of(0.1), beta_of(0.5), beta_of(0.9)] if is05 else []
-        rz = ("rz", par["Rz"]) if par.get("krp") is None else ("krp", par["krp"])
-        ml = [" ".join(["c10.par", par["group"], f2h(par["Rm"]), rz[0], f2h(rz[1]), f2h(float(aps.beta)),
-                        "1" if is05 else "0", f2h(par["Aref"]), f2h(par["Asigma"]), f2h(Gs[k])]),
-              self._run_line("batch" if nn > 1 else "single", par, apb, L, cs, Gs, self._tables(rb, nn, nn > 1), betas),
-              self._run_line("single", par, aps, L, [cs[k]], [Gs[k]], self._tables(rs, 1, False), betas)]
-        line0 = " ".join(f2h(float(v)) for v in [aps.n_st, aps.n_bm, aps.n_P, aps.K_RP, aps.gamma_M_RAM, aps.f_RAM, aps.P_RAM_Z, aps.P_RAM_D])
-        il = [line0, self._impl_run(rb, nn, is05), self._impl_run(rs, 1, is05)]
-        col = rb["P_RAM_collective"]
-        st = {"hyst": len(col) // nn, "m3": int((~col["is_closed_hysteresis"].astype(bool)).sum()) // nn,
-              "early": int(np.sum(np.asarray(rb["P_RAM_damage_calculator"]._n_cycles_until_damage).reshape(-1) < rb["P_RAM_damage_calculator"]._n_hystereses))}
-        return ml, il, st
+            return empty
+        except Exception as e:
+            return dict(empty, il=[f"EXC {type(e).__name__}: {str(e)[:200]}"], orc=exc_verdict(e))
 
     def _key(self, case):
         return json.dumps(case, sort_keys=True)
@@ -544,19 +786,29 @@ class C10(Prop):
         todo = [c for c in cases if c["kind"] == "corr" and self._key(c) not in self._cache]
         if not todo:
             return
-        res = par_map(self._corr_lines, todo, self.PARALLEL)
-        for c, (ml, il, st) in zip(todo, res):
-            self._cache[self._key(c)] = (ml, il)
+        res = par_map(self._corr_eval, todo, self.PARALLEL)
+        for c, r in zip(todo, res):
+            self._cache[self._key(c)] = r
+            st = r["st"]
             par = c["par"]
             self.stats["assessments"] += 2
             self.stats["hystereses"] += st["hyst"]
             self.stats["memory3_rows"] += st["m3"]
             self.stats["early_failure"] += st["early"]
+            self.stats["corr_batch_line_suspended_open_finding"] += 1 if r.get("susp") else 0
             self._count("groups", par["group"])
             self._count("nodes", len(c["cs"]))
             self._count("seq_len", len(c["L"]))
+            self._note_layout(c)
             if len(set(c["G"])) > 1:
                 self.stats["per_point_G"] += 1
+
+    def _note_layout(self, case):
+        lay = case.get("lay")
+        if lay and len(case["cs"]) > 1:
+            self._count("layout_ids", lay.get("idkind", "?"))
+            self._count("layout_rows", lay.get("rows", "step"))
+            self._count("layout_steps", lay.get("steps", "0..n-1"))
 
     def model_lines(self, case):
         if case["kind"] == "praj":
@@ -564,7 +816,7 @@ class C10(Prop):
         if case["kind"] != "corr":
             return []
         self._precompute([case])
-        return self._cache[self._key(case)][0]
+        return self._cache[self._key(case)]["ml"]
 
     def impl_lines(self, case):
         if case["kind"] == "praj":
@@ -572,7 +824,7 @@ class C10(Prop):
         if case["kind"] != "corr":
             return []
         self._precompute([case])
-        return self._cache[self._key(case)][1]
+        return self._cache[self._key(case)]["il"]
 
     def _impl_run(self, res, n, betas):
         col = res["P_RAM_collective"]
@@ -599,7 +851,7 @@ class C10(Prop):
         if case["kind"] == "praj":
             return praj.compare(case, model_out, impl_out)
         if len(model_out) != len(impl_out):
-            return f"length {len(model_out)} vs {len(impl_out)}"
+            return f"length {len(model_out)} vs {len(impl_out)}" + (f": {impl_out[0][:200]}" if impl_out and impl_out[0].startswith("EXC") else "")
         for li, (m, i) in enumerate(zip(model_out, impl_out)):
             mt, it = m.split(), i.split()
             if len(mt) != len(it):
@@ -614,7 +866,7 @@ class C10(Prop):
                         return f"line {li} token {j}: {a} vs {b}"
                     if close(x, y, rtol=1e-9, atol=1e-300):
                         continue
-                    return f"line {li} token {j}: model={x!r} impl={y!r} (P_RAM pipeline, case {case['par']['group']} L={case['L']} cs={case['cs']})"
+                    return f"line {li} token {j}: model={x!r} impl={y!r} (P_RAM pipeline, case {case['par']['group']} L={case['L']} cs={case['cs']} layout={case.get('lay')})"
                 return f"line {li} token {j}: model={a!r} impl={b!r}"
         return None
 
@@ -634,6 +886,14 @@ class C10(Prop):
         except SolverFailure:
             self.stats["solver_failures"] += 1
             return None
+        except NodeOrderDefect as e:
+            return (self._node_order_desc(case, str(e)), "batch-node-order")
+
+    def _node_order_desc(self, case, msg):
+        return node_order_desc(case, msg)
+
+    def _ctx(self, case):
+        return ctx_of(case)
 
     def _note(self, summ):
         for s in summ:
@@ -642,76 +902,114 @@ class C10(Prop):
                 self.stats["infinite_raj" if s["P_RAJ_is_life_infinite"] else "finite_raj"] += 1
 
     def _oracle_corr(self, case):
-        return None
+        self._precompute([case])
+        return self._cache[self._key(case)]["orc"]
 
     def _oracle_praj(self, case):
         return praj.oracle(case)
 
-    def _cmp_same(self, a, b, what, ctx, klass_prefix):
-        """a, b: summaries of the same point obtained in two ways that the property says give the same result"""
+    def _oracle_hotprobe(self, case):
+        hot_ratio((case["par"], case["L"], case["c0"], case["G0"]))      # raises again: judged by _oracle_safe
+        return None
+
+    def _cmp_same(self, a, b, what, ctx, klass_prefix, stat=None):
+        """a, b: summaries of the same point obtained in two ways that the property says give the same result.
+        None or (description, class, info) with info = {"rel": relative difference} / {"margin": distance of P_max from the limit}"""
         for pre, tol in (("P_RAM", TOL_RAM), ("P_RAJ", TOL_RAJ)):
             lk, ik, mk = f"{pre}_lifetime_n_cycles", f"{pre}_is_life_infinite", f"{pre}_margin"
             if lk not in a or lk not in b:
                 continue
             if a[ik] != b[ik] and min(a[mk], b[mk]) > TOL_VERDICT:
-                return (f"{pre} infinite-life verdict differs ({what}): {a[ik]} vs {b[ik]}; {ctx}", f"{klass_prefix}-{pre}-verdict")
+                return (f"{pre} infinite-life verdict differs ({what}): {a[ik]} vs {b[ik]}; {ctx}", f"{klass_prefix}-{pre}-verdict", {"margin": min(a[mk], b[mk])})
+            rel = reldiff(a[lk], b[lk])
+            if stat and rel < 1e-3:
+                self.stats[f"max_rel_{stat}_{pre}"] = max(self.stats[f"max_rel_{stat}_{pre}"], rel)
             if not relclose(a[lk], b[lk], tol):
-                return (f"{pre} lifetime differs ({what}): {a[lk]!r} vs {b[lk]!r}; {ctx}", f"{klass_prefix}-{pre}-lifetime")
+                return (f"{pre} lifetime differs ({what}): {a[lk]!r} vs {b[lk]!r}; {ctx}", f"{klass_prefix}-{pre}-lifetime", {"rel": rel})
             if pre == "P_RAM" and not relclose(a["P_RAM_passes"], b["P_RAM_passes"], tol):
                 return (f"P_RAM bearable passes of the load sequence differ ({what}): {a['P_RAM_passes']!r} vs {b['P_RAM_passes']!r}; {ctx}",
-                        f"{klass_prefix}-P_RAM-lifetime")
+                        f"{klass_prefix}-P_RAM-lifetime", {"rel": reldiff(a["P_RAM_passes"], b["P_RAM_passes"])})
         return None
+
+    def _batch_class(self, case, klass, info):
+        """the finding class of a batch-vs-alone difference: the recorded defect of the unchanged tree (tables matched to the
+        points by position, maxima sorted by node label) is recognised by a decidable guard on the case; everything else keeps
+        its own class.  (Loads on class edges - audit C10-5 - need no class any more: since 3047e0d every point is looked up
+        in its own table column with its own load, as when it is assessed alone.)"""
+        if len(case["cs"]) > 1 and not ids_ascending(case):
+            return "batch-node-order"
+        return klass
 
     def _oracle_batch(self, case):
         par, L, cs, Gs = case["par"], case["L"], case["cs"], case["G"]
         nn = len(cs)
         raj = not case.get("ram_only")
-        rb = summary(assess(par, L, cs, Gs, list(range(nn)), raj=raj), nn, raj=raj)
+        self._note_layout(case)
+        if on_inexact_edge(L):
+            self.stats["edge_load_cases"] += 1
+        rb = summary(assess_batch(case, par, L, cs, Gs, list(range(nn)), raj=raj), nn, raj=raj)
         self.stats["assessments"] += 1 + nn
         self._note(rb)
         if "hot" in case:
             self.stats["hot_batches"] += 1
             self.stats["early_failure_points_in_batches"] += sum(1 for x in rb if x["P_RAM_passes"] == 0.0)
+        ctx = self._ctx(case)
         for k in range(nn):
-            rs = summary(assess(par, L, cs, Gs, [k], raj=raj), 1, raj=raj)[0]
-            r = self._cmp_same(rb[k], rs, f"point {k} in the batch vs alone",
-                               f"group={par['group']} R_m={par['Rm']} K_p={par['Kp']} P_A={par['PA']} loads={L} ratios={[c / cs[0] for c in cs]} G={Gs}", "batch")
+            mi = bool(case.get("alone_mi")) and k % 2 == 0
+            if mi:
+                self.stats["alone_as_one_point_batch"] += 1
+            rs = summary(assess(par, L, cs, Gs, [k], raj=raj, as_batch=mi, lay=case.get("lay")), 1, raj=raj)[0]
+            r = self._cmp_same(rb[k], rs, f"point {k} in the batch vs alone", ctx, "batch", stat="batch")
             if r:
-                return r
+                d, kl = r[0], self._batch_class(case, r[1], r[2])
+                if not self.known(kl, d):
+                    return (d, kl)
             a, b = rb[k].get("LF"), rs.get("LF")
-            # residual strains are differences of look-up table values: their absolute noise (vectorised Newton, Seeger-Beste
-            # tables agree to ~1e-3 between batch and single) scales with the largest strain of the history
+            # residual strains are differences of look-up table values: their absolute noise scales with the largest strain of the history
             lf_scale = max([abs(x) for x in (a or []) + (b or [])] + [0.0])
-            if a is not None and b is not None and (len(a) != len(b) or any(abs(x - y) > 1e-9 + TOL_LF * lf_scale for x, y in zip(a, b))):
-                return (f"running strain extremes epsilon_min_LF / epsilon_max_LF of point {k} differ between the batch and the single run "
-                        f"(they feed the P_RAJ crack opening logic): batch {a} vs alone {b}; group={par['group']} R_m={par['Rm']} K_p={par['Kp']} loads={L} "
-                        f"ratios={[c / cs[0] for c in cs]}", "batch-P_RAJ-strain-extremes")
+            if a is not None and b is not None and len(a) == len(b) and lf_scale:
+                w = max(abs(x - y) for x, y in zip(a, b)) / lf_scale
+                if w < 1e-3:
+                    self.stats["max_rel_batch_LF"] = max(self.stats["max_rel_batch_LF"], w)
+            if a is not None and b is not None and (len(a) != len(b) or any(abs(x - y) > 1e-12 + TOL_LF * lf_scale for x, y in zip(a, b))):
+                worst = max([abs(x - y) for x, y in zip(a, b)] + [0.0]) / lf_scale if len(a) == len(b) and lf_scale else 1.0
+                d = (f"running strain extremes epsilon_min_LF / epsilon_max_LF of point {k} differ between the batch and the single run "
+                     f"(they feed the P_RAJ crack opening logic): batch {a} vs alone {b}; {ctx}")
+                kl = self._batch_class(case, "batch-P_RAJ-strain-extremes", {"lf": worst})
+                if not self.known(kl, d):
+                    return (d, kl)
         return None
 
     def _oracle_refine(self, case):
         par, L, cs, Gs = case["par"], case["L"], case["cs"], case["G"]
         nn = len(cs)
         nodes = list(range(nn))
-        base = summary(assess(par, L, cs, Gs, nodes), nn)
+        self._note_layout(case)
+        base = summary(assess(par, L, cs, Gs, nodes, lay=case.get("lay")), nn)
         r = random.Random(case["seed"])
-        L2 = refine(r, L)
-        got = summary(assess(par, L2, cs, Gs, nodes), nn)
+        L2 = case.get("L2") or refine(r, L)               # corpus cases may spell the refined sequence out
+        if L2[:1] != L[:1] or (len(L2) > 1 and L2[1] == L[0] and L2[0] == L[0]):
+            self.stats["prepended_samples"] += 1
+        got = summary(assess(par, L2, cs, Gs, nodes, lay=case.get("lay2", case.get("lay"))), nn)
         self.stats["assessments"] += 2
         self._note(base)
         for k in range(nn):
-            x = self._cmp_same(base[k], got[k], f"point {k}, load sequence {L} vs refined by non-reversal samples {L2}",
-                               f"group={par['group']} R_m={par['Rm']} K_p={par['Kp']} P_A={par['PA']}", "refine")
+            x = self._cmp_same(base[k], got[k], f"point {k}, load sequence {L} vs refined by non-reversal samples {L2}", self._ctx(case), "refine", stat="refine")
             if x:
-                return x
+                return x[:2]
         return None
 
-    def _oracle_mono(self, case):
+    # ---- monotonicity
+    def _mono_pair(self, case, nbins=None):
         par, L, cs, Gs, what = dict(case["par"]), case["L"], case["cs"], case["G"], case["what"]
+        if nbins is not None:
+            par["nbinsJ"] = nbins
         nn = len(cs)
         nodes = list(range(nn))
+        lay = case.get("lay")
         if what == "scale":
-            a = summary(assess(par, L, cs, Gs, nodes), nn)
-            b = summary(assess(par, L, cs, Gs, nodes, scale=case["s"]), nn)
+            a = summary(assess(par, L, cs, Gs, nodes, lay=lay), nn)
+            b = summary(assess(par, L, cs, Gs, nodes, scale=case["s"], lay=lay), nn)
             desc = f"loads scaled by {case['s']}"
         elif what == "rough":
             if "rz" in case:
@@ -720,31 +1018,89 @@ class C10(Prop):
             else:
                 pa_, pb_ = dict(par, krp=case["krp"][0]), dict(par, krp=case["krp"][1])
                 desc = f"K_RP {case['krp'][0]} -> {case['krp'][1]}"
-            a = summary(assess(pa_, L, cs, Gs, nodes), nn)
-            b = summary(assess(pb_, L, cs, Gs, nodes), nn)
+            a = summary(assess(pa_, L, cs, Gs, nodes, lay=lay), nn)
+            b = summary(assess(pb_, L, cs, Gs, nodes, lay=lay), nn)
         else:
-            a = summary(assess(dict(par, PA=case["pa"][0]), L, cs, Gs, nodes), nn)
-            b = summary(assess(dict(par, PA=case["pa"][1]), L, cs, Gs, nodes), nn)
+            a = summary(assess(dict(par, PA=case["pa"][0]), L, cs, Gs, nodes, lay=lay), nn)
+            b = summary(assess(dict(par, PA=case["pa"][1]), L, cs, Gs, nodes, lay=lay), nn)
             desc = f"P_A {case['pa'][0]} -> {case['pa'][1]}"
         self.stats["assessments"] += 2
+        return a, b, desc
+
+    def _mono_violations(self, a, b, k, pre):
+        """(kind, relative increase) when point k's `pre` result of b (the more demanding configuration) is better than a's"""
+        lk, ik, mk = f"{pre}_lifetime_n_cycles", f"{pre}_is_life_infinite", f"{pre}_margin"
+        if lk not in a[k]:
+            return None
+        if b[k][ik] and not a[k][ik] and min(a[k][mk], b[k][mk]) > 1e-9:
+            return ("verdict", math.inf)
+        if not le(b[k][lk], a[k][lk], TOL_MONO):
+            return ("lifetime", (b[k][lk] - a[k][lk]) / a[k][lk] if a[k][lk] > 0 and not math.isinf(b[k][lk]) else math.inf)
+        return None
+
+    def _mono_class(self, case, pre, k, kind, inc, a, b):
+        """finding class of a monotonicity failure.  The open classes are tied to their mechanism:
+        mono-pa-above-half : P_A > 0.5 compared with exactly 0.5 (the documented switch that turns the statistical assessment off);
+        mono-P_RAJ-rough / -pa : the P_RAJ class grid (n_bins classes between P_RAJ_klass_max and P_RAJ_D_e) moves with the
+            curve - an artefact of the classing: fewer than 1000 classes, a finite increase <= CLASSING_MAX_REL, and the SAME pair
+            re-run with CLASSING_FINE classes is monotone to CLASSING_FINE_TOL;
+        mono-P_RAJ-scale : crack closure - hystereses of the scaled run have P_RAJ = 0 (the crack stays closed after the larger
+            compressive excursion) although the unscaled run's do not."""
+        what = case["what"]
+        if what == "pa" and abs(case["pa"][1] - 0.5) < 1e-9 and case["pa"][0] > 0.5 + 1e-9:
+            return "mono-pa-above-half"
+        if pre == "P_RAM":
+            # the early-failure lifetime is the index of the hysteresis at which the damage sum reaches one, counted over BOTH
+            # recorded passes (n1 + n2 hystereses); the regular lifetime is (1 + x) * n2 with x > 1: across the boundary the
+            # lifetime can grow by at most n1 - n2 cycles when the first pass recorded more hystereses than the second
+            ak, bk = a[k], b[k]
+            if (kind == "lifetime" and bk["P_RAM_passes"] == 0.0 and ak["P_RAM_passes"] > 0.0 and ak["P_RAM_n1"] >= ak["P_RAM_n2"] + 2
+                    and (ak["P_RAM_n1"], ak["P_RAM_n2"]) == (bk["P_RAM_n1"], bk["P_RAM_n2"])
+                    and bk["P_RAM_lifetime_n_cycles"] - ak["P_RAM_lifetime_n_cycles"] <= ak["P_RAM_n1"] - ak["P_RAM_n2"]):
+                return "mono-P_RAM-early-failure-count"
+            return f"mono-P_RAM-{what}"
+        self._count("mono_failures_examined", f"{what}-{kind}")
+        if what == "scale" or (what == "pa" and (case["par"].get("sL") is not None or case["par"].get("LSDs") is not None)):
+            # the loads are scaled up: directly, or through gamma_L(P_A) of the normal / lognormal load safety concept
+            pa_, pb_ = a[k].get("P_RAJ_vals") or [], b[k].get("P_RAJ_vals") or []
+            if len(pa_) == len(pb_) and any(y < x * (1 - 1e-9) for x, y in zip(pa_, pb_)):
+                return "mono-P_RAJ-scale"
+        open_class = {"rough": "mono-P_RAJ-rough", "pa": "mono-P_RAJ-pa", "scale": "mono-P_RAJ-scale-classing"}[what]
+        nb = case["par"].get("nbinsJ") or 200
+        if nb < 1000 and kind == "lifetime" and inc <= CLASSING_MAX_REL[what]:
+            a2, b2, _ = self._mono_pair(case, nbins=CLASSING_FINE)
+            v2 = self._mono_violations(a2, b2, k, pre)
+            if v2 is None or (v2[0] == "lifetime" and v2[1] <= CLASSING_FINE_TOL):
+                return open_class
+            return f"mono-P_RAJ-{what}-with-{CLASSING_FINE}-classes"
+        return f"mono-P_RAJ-{what}-beyond-classing" if what != "scale" else "mono-P_RAJ-scale-without-crack-closure"
+
+    def _oracle_mono(self, case):
+        self._note_layout(case)
+        a, b, desc = self._mono_pair(case)
         self._note(a)
-        above = "-above-half" if what == "pa" and case["pa"][0] > 0.5 + 1e-9 else ""
-        ctx = f"group={par['group']} R_m={par['Rm']} K_p={par['Kp']} P_A={par.get('PA')} loads={L} ratios={[c / cs[0] for c in cs]}"
+        nn = len(case["cs"])
+        ctx = self._ctx(case)
         for k in range(nn):
             for pre in ("P_RAM", "P_RAJ"):
-                lk, ik, mk = f"{pre}_lifetime_n_cycles", f"{pre}_is_life_infinite", f"{pre}_margin"
-                if lk not in a[k]:
+                v = self._mono_violations(a, b, k, pre)
+                if v is None:
                     continue
-                if b[k][ik] and not a[k][ik] and min(a[k][mk], b[k][mk]) > 1e-9:
-                    return (f"{pre}: finite life became infinite life ({desc}), point {k}; {ctx}", "mono-pa-above-half" if above else f"mono-{pre}-{what}")
-                if not le(b[k][lk], a[k][lk], TOL_MONO):
-                    return (f"{pre} lifetime increased ({desc}): {a[k][lk]!r} -> {b[k][lk]!r}, point {k}; {ctx}", "mono-pa-above-half" if above else f"mono-{pre}-{what}")
+                lk = f"{pre}_lifetime_n_cycles"
+                kl = self._mono_class(case, pre, k, v[0], v[1], a, b)
+                if v[0] == "verdict":
+                    d = f"{pre}: finite life became infinite life ({desc}), point {k}; {ctx}"
+                else:
+                    d = f"{pre} lifetime increased ({desc}): {a[k][lk]!r} -> {b[k][lk]!r} (+{100 * v[1]:.3g} %), point {k}; {ctx}"
+                if not self.known(kl, d):
+                    return (d, kl)
         return None
 
     def _oracle_n105090(self, case):
         par, L, cs, Gs = case["par"], case["L"], case["cs"], case["G"]
         nn = len(cs)
-        s = summary(assess(par, L, cs, Gs, list(range(nn))), nn)
+        self._note_layout(case)
+        s = summary(assess(par, L, cs, Gs, list(range(nn)), lay=case.get("lay")), nn)
         self.stats["assessments"] += 1
         self._note(s)
         for k in range(nn):
@@ -753,21 +1109,31 @@ class C10(Prop):
                     continue
                 n10, n50, n90 = (s[k][f"{pre}_lifetime_N_{q}"] for q in ("10", "50", "90"))
                 if not (le(n10, n50, 1e-9) and le(n50, n90, 1e-9)):
-                    return (f"{pre}: N_10={n10!r}, N_50={n50!r}, N_90={n90!r} not ordered, point {k}; group={par['group']} R_m={par['Rm']} K_p={par['Kp']} loads={L} "
-                            f"ratios={[c / cs[0] for c in cs]}", f"n105090-{pre}")
+                    return (f"{pre}: N_10={n10!r}, N_50={n50!r}, N_90={n90!r} not ordered, point {k}; {self._ctx(case)}", f"n105090-{pre}")
         return None
 
     # ------------------------------------------------------------ shrinking
     def shrink(self, case, still_fails):
-        if case["kind"] == "praj":
+        if case["kind"] in ("praj", "hotprobe"):
             return case
         cur = {k: v for k, v in case.items() if not k.startswith("_") and k != "hot"}   # "hot" (position of the hot spot) is bookkeeping only
+
+        def without_point(c, i):
+            c2 = dict(c, cs=c["cs"][:i] + c["cs"][i + 1:], G=c["G"][:i] + c["G"][i + 1:])
+            for key in ("lay", "lay2"):
+                if c.get(key) and c[key].get("ids"):
+                    c2[key] = dict(c[key], ids=c[key]["ids"][:i] + c[key]["ids"][i + 1:])
+            if "k" in c2:
+                c2["k"] = c["k"] - 1 if c["k"] > i else c["k"]
+            return c2
         # fewer points
         changed = True
         while changed and len(cur["cs"]) > (2 if cur["kind"] == "batch" else 1):
             changed = False
             for i in range(1, len(cur["cs"])):
-                c2 = dict(cur, cs=cur["cs"][:i] + cur["cs"][i + 1:], G=cur["G"][:i] + cur["G"][i + 1:])
+                if cur.get("k") == i:
+                    continue
+                c2 = without_point(cur, i)
                 if still_fails(c2):
                     cur, changed = c2, True
                     break
@@ -780,4 +1146,10 @@ class C10(Prop):
                 if len(set(L2)) >= 2 and still_fails(dict(cur, L=L2)):
                     cur, changed = dict(cur, L=L2), True
                     break
+        # the plain layout
+        for key, plain in (("rows", "step"), ("steps", "0..n-1")):
+            if cur.get("lay") and cur["lay"].get(key) not in (None, plain):
+                c2 = dict(cur, lay=dict(cur["lay"], **{key: plain}))
+                if still_fails(c2):
+                    cur = c2
         return cur
